@@ -174,7 +174,7 @@ def core_check(prop, tier, seed, sd, t0):
         if drc == 77 and tail.startswith('LIVELOCK') and any(b for _, _, b in livelocks) and prop in ('C14', 'C15'):
             # goroutines of the writer spin (never durably blocked, so synctest cannot call it a deadlock): it does not terminate
             log('VIOLATION property=%s replay=%s' % (prop, d))
-            log('  livelock: no event for 60 s of real time inside one execution while goroutines of the writer stay busy: %s (family %s shard %d)'
+            log('  livelock: no event for 90 s of real time inside one execution while goroutines of the writer stay busy: %s (family %s shard %d)'
                 % (livelocks[0][2][:3], fam, shard))
             rc = 1
         elif in_code and not harness_bug and prop in ('C03', 'C04', 'C14', 'C15'):
